@@ -25,7 +25,10 @@ SPEC = dict(
     bounded=[dict(name='C03-bounded', script='bounded/C03.py')],
     replay_finder='bounded/C03.py',
     explanation='ground obligations on the two ion-offset representations + bounded relational check; see level_text',
-    proved_clauses=['per-part link for the TABLES (ground, exact rational arithmetic on the real tables of this run, 84 obligations): each residue mass '
+    proved_clauses=['comp(): with no residual mass shift it returns the composition of comp_mass itself; with one it raises unless estimation is asked for, '
+                    'and otherwise the weighted total of the result == total of that composition + total of the averagine estimate of the residual '
+                    '(entries ADDED, for any weighting) -- contracts/seqcomp.py',
+                    'per-part link for the TABLES (ground, exact rational arithmetic on the real tables of this run, 84 obligations): each residue mass '
                     '(both modes) == the mass of its table composition, each neutral ion-type adjustment (both modes) == the mass of its composition '
                     'adjustment -- so the residue / ion-type parts of mass() (contracts/masssum.py) and of _sequence_comp (contracts/seqcomp.py) agree',
                     'the real composition calculator _sequence_comp (both adduct variants; no static rules -- comp_mass condenses them first; no global '
